@@ -163,6 +163,13 @@ def run(chk):
         noemit = set(c for c in consts if rng.random() < 0.4)
         lm = []
         text = gen_isa.render(p, rng, linemap=lm, noemit=noemit)
+        if rng.random() < 0.5:
+            # characters of two, three and four bytes in trailing comments: byte offsets and character columns part ways
+            tl = text.split("\n")
+            for ln, _ in lm:
+                if rng.random() < 0.3 and not tl[ln - 1].rstrip().endswith("{"):
+                    tl[ln - 1] += rng.choice([" ; é", " ; ünï ✓", "\t;* 𝄞 *;", " ; →"])
+            text = "\n".join(tl)
         extra = {}
         if rng.random() < 0.5:
             # a symbol whose value is not an integer (it is not listed), with a nested label (which is)
